@@ -453,7 +453,8 @@ def place_param(rng, n, name, stats, need=None, has_default=False):
 
 def gen_sweep(rng, elem, stats, need=None):
     nv = rng.choice([1, 1, 2, 2, 3])
-    names = rng.sample(["t", "u", "w", "s"], nv)
+    # (mixed-case names and a digit: the documented order of a combinatorial sweep is the plain sorted() order of the names)
+    names = rng.sample(["t", "u", "w", "s", "B", "Z", "t2", "a"], nv)
     vars_ = []
     mode = rng.choice(["combinatorial", "by_position"])
     broadcast = rng.random() < 0.4
